@@ -149,6 +149,10 @@ OPS = {
     'make_h_auto': lambda: segno.make('Segno', error='h'),
     'iter_verbose_v2_a': lambda: tuple(segno.make('alignment', version=2, mask=0).matrix_iter(verbose=True)),
     'iter_verbose_v2_b': lambda: tuple(segno.make('ALIGNMENT', version=2, mask=1).matrix_iter(verbose=True, border=0)),
+    'make_int_1': lambda: segno.make(1),
+    'make_bool_true': lambda: segno.make(True),
+    'fail_eci_utf16': lambda: segno.make('ab', encoding='utf-16', eci=True),
+    'fail_eci_koi8': lambda: segno.make('ab', encoding='koi8-r', eci=True),
     'fail_overflow': lambda: segno.make('1' * 8000),
     'fail_colour': lambda: _save(_shared(), 'png', dark='nope'),
     'fail_mode': lambda: segno.make('abc', mode='numeric'),
